@@ -30,7 +30,7 @@ class C18(Prop):
     pid = "C18"
     prop_file = "Props/C18.v"
     module = "Props.C18"
-    gen_deps = ["Table", "ParserFn", "WinconFn", "WinconStreamFn"]
+    gen_deps = ["Table", "ParserFn", "WinconFn", "WinconStreamFn", "FmtFn"]
     harness = ("h-wincon", "hwincon")
     nontrivial_rule = ("cases: UTF-8 texts with grammar SGR sequences (C07's generator), other escape sequences and chunkings, through WinconStream::{write, write_all, write_vectored, "
                        "write_fmt, flush} over a scripted console writer (recording every write_colored(fg, bg, text) call; short counts, Interrupted / WouldBlock / Other errors; "
